@@ -5,6 +5,7 @@
 From Coq Require Import String.
 From Coq Require Import List Arith Permutation.
 From ESRV Require Import Model.Shapes Model.Labels Proofs.ShapesProofs Proofs.LabelsProofs.
+From ESRV Require Import Gen.GenShapes Proofs.ShapesGenProofs.
 Import ListNotations.
 Open Scope list_scope.
 Open Scope nat_scope.
@@ -39,6 +40,47 @@ Theorem C01_check_tree_arrays : forall u, 2 <= size u ->
   check_tree (pre u) = Ok (true, Some (pre u), arr u 0 None).
 Proof. exact check_tree_arrays. Qed.
 Print Assumptions C01_check_tree_arrays.
+
+(* ---- the same, for check_tree as REGENERATED from generator.py on every run (Gen/GenShapes.v) ----
+   harness/translate/ctree.py turns the function (Node objects with attribute stores, a `for` and a `while` loop left with `break`,
+   variables that are unbound when the loop body never runs) into Gallina: checked updates (IndexError / tree[None] = None), fuelled
+   loops, unbound variables as options.  The generated function equals the hand model on EVERY string: same success flag, same
+   part_considered, same node arrays, and it raises exactly where the model says Crash. *)
+Theorem C01_code_check_tree_is_model : forall s,
+  match check_tree s with
+  | Ok r => check_tree_code s = Some r
+  | Crash => check_tree_code s = None
+  | Fuel => True
+  end.
+Proof. exact check_tree_code_refines. Qed.
+Print Assumptions C01_code_check_tree_is_model.
+
+Theorem C01_code_check_tree_iff : forall s, 2 <= length s -> hd 0 s <> 0 -> Forall le2 s ->
+  exists p t, check_tree_code s = Some (lukb s, Some p, t) /\ (lukb s = true <-> exists u, pre u = s).
+Proof. exact code_check_tree_iff. Qed.
+Print Assumptions C01_code_check_tree_iff.
+
+Theorem C01_code_check_tree_prune_sound : forall s, 2 <= length s -> hd 0 s <> 0 -> Forall le2 s ->
+  exists p t, check_tree_code s = Some (lukb s, Some p, t) /\
+    firstn (length p) s = p /\
+    (lukb s = false -> forall s', length s' = length s -> firstn (length p) s' = p -> lukb s' = false).
+Proof. exact code_check_tree_prune_sound. Qed.
+Print Assumptions C01_code_check_tree_prune_sound.
+
+Theorem C01_code_check_tree_arrays : forall u, 2 <= size u ->
+  check_tree_code (pre u) = Some (true, Some (pre u), arr u 0 None).
+Proof. exact code_check_tree_arrays. Qed.
+Print Assumptions C01_code_check_tree_arrays.
+
+Theorem C01_code_check_tree_crash : forall a r, check_tree_code (0 :: a :: r) = None.
+Proof. exact code_check_tree_crash. Qed.
+
+Example C01_ex_code_check_tree :
+  check_tree_code [2; 1; 0; 0] = Some (true, Some [2; 1; 0; 0], arr (B (U L) L) 0 None) /\
+  check_tree_code [2; 0; 0; 0; 1] = Some (false, Some [2; 0; 0; 0],
+     [mkNode 2 None (Some 1) (Some 2); mkNode 0 (Some 0) None None; mkNode 0 (Some 0) None None; mkNode 0 None None None; mkNode 1 None None None]) /\
+  check_tree_code [0; 1; 0] = None /\ check_tree_code [] = Some (true, None, []).
+Proof. vm_compute. auto. Qed.
 
 (* the remaining behaviours of check_tree, as the code has them *)
 Theorem C01_check_tree_crash : forall a r, check_tree (0 :: a :: r) = Crash.
